@@ -268,15 +268,28 @@ def rule_r1(prog, res):
     res.floor('R1', 'cells evaluated', cells - unknown, 30)
     # Ignored handling on the wire side: get_out_object maps it to empty
     srv = prog.method('spyne.server._base:ServerBase', 'get_out_object')
-    t = unparse(srv.node)
-    ok = 'Ignored' in t and 'ctx.out_object = (None,)' in t and \
-        'ctx.out_object = ()' in t
+    stores = []
+    for a_ in walk_no_defs(srv.node):
+        if isinstance(a_, ast.Assign) and any(
+                unparse(t_) == 'ctx.out_object' for t_ in a_.targets) and any(
+                'Ignored' in tx and pol
+                for tx, pol in guardspec.atoms_at(a_, srv.node)):
+            stores.append(a_)
+
+    def all_none(v):
+        if isinstance(v, ast.BinOp) and isinstance(v.op, ast.Mult):
+            return all_none(v.left)
+        return isinstance(v, ast.Tuple) and len(v.elts) >= 1 and all(
+            isinstance(e, ast.Constant) and e.value is None for e in v.elts)
+    ok = len(stores) >= 2 and all(all_none(a_.value) for a_ in stores)
     res.ob('R1', srv.where, 'get_out_object sends an Ignored result as empty',
            'ok' if ok else 'VIOLATED')
     if not ok:
         res.finding('R1', 'ServerBase.get_out_object|ignored', srv.where,
-                    'an Ignored return value is no longer replaced by an '
-                    'empty result on the wire path')
+                    'an Ignored return value is no longer replaced by a '
+                    'non-empty tuple of Nones on the wire path (an empty '
+                    'tuple is indexed by the transport and the serializers: '
+                    'StopIteration / IndexError out of the request)')
 
 
 def rule_r2(prog, res):
@@ -679,8 +692,8 @@ def rule_r8(prog, res):
             while p_ is not None and p_ is not f.node:
                 par = getattr(p_, '_parent', None)
                 if isinstance(par, ast.Try) and p_ in par.body and any(
-                        h.type is None or 'StopIteration' in unparse(h.type)
-                        or unparse(h.type) in ('Exception', 'BaseException')
+                        h.type is not None and
+                        'StopIteration' in unparse(h.type)
                         for h in par.handlers):
                     handled = True
                 p_ = par
